@@ -99,6 +99,8 @@ ENTRY = {
     'ss': ['state_space'], 'nodal': ['nodal_analysis'], 'mesh': ['mesh_analysis'], 'params': ['params', 'undefined_symbols'],
     'symbols': ['symbols'], 'lists': ['capacitors', 'inductors', 'voltage_sources', 'current_sources', 'transformers', 'twoports'],
     'thevenin': ['thevenin'],
+    'wired_to': ['cb:wired_to'], 'is_wired_to': ['cb:is_wired_to'], 'across': ['across_nodes'], 'in_series': ['in_series'],
+    'in_parallel': ['in_parallel'], 'loops': ['cg'], 'nodeinfo': ['nodes'],
 }
 DERIVE_ENTRY = {
     'copy': ['copy'], 'subs': ['subs'], 'kill': ['kill'], 'kill_except': ['kill_except'], 'simplify': ['simplify'], 'select': ['select'],
@@ -165,6 +167,24 @@ def query(c, q):
         return repr(out)
     if k == 'nodes':
         return repr(sorted((n, nd.count, sorted(x.name for x in nd.connected)) for n, nd in c.nodes.items()))
+    if k == 'wired_to':
+        return repr(sorted(c[q['a']].wired_to()))
+    if k == 'is_wired_to':
+        return repr(c[q['a']].is_wired_to(q['b']))
+    if k == 'across':
+        return repr(sorted(c.across_nodes(q['a'], q['b'])))
+    if k == 'in_series':
+        return repr(sorted(c.in_series(q['a'])))
+    if k == 'in_parallel':
+        return repr(sorted(c.in_parallel(q['a'])))
+    if k == 'loops':
+        # facts of the circuit graph that do not depend on WHICH cycle basis is returned
+        g = c.cg
+        loops = g.loops()
+        return repr((len(loops), sorted({str(n) for l in loops for n in l}), sorted(str(n) for n in g.nodes), g.is_connected))
+    if k == 'nodeinfo':
+        nd = c[q['a']]
+        return repr((nd.count, sorted(x.name for x in nd.connected), nd.is_dangling if hasattr(type(nd), 'is_dangling') else None))
     if k == 'transfer':
         return lap(c.transfer(q['a'], 0, q['b'], 0))
     if k == 'impedance':
